@@ -98,19 +98,26 @@ func (s *set[ElementType]) Compute(mutationFactory func(set ReadableSet[ElementT
 	return s.apply(mutationFactory(s.readableSet))
 }
 
-// Replace replaces the elements of the set with the given elements and returns the previous elements of the set.
-func (s *set[ElementType]) Replace(elements ReadableSet[ElementType]) (previousElements Set[ElementType]) {
+// Replace replaces the elements of the set with the given elements and returns the removed elements.
+func (s *set[ElementType]) Replace(elements ReadableSet[ElementType]) (removedElements Set[ElementType]) {
 	s.applyMutex.Lock()
 	defer s.applyMutex.Unlock()
 
-	previousElements = NewSet(s.ToSlice()...)
+	previousElements := s.ToSlice()
 	s.Clear()
 
 	elements.Range(func(element ElementType) {
 		s.Set(element, types.Void)
 	})
 
-	return previousElements
+	removedElements = NewSet[ElementType]()
+	for _, previousElement := range previousElements {
+		if !s.Has(previousElement) {
+			removedElements.Add(previousElement)
+		}
+	}
+
+	return removedElements
 }
 
 // ReadOnly returns a read-only version of the set.
